@@ -241,6 +241,13 @@ func parse(line string) (tcase, bool) {
 	return c, true
 }
 
+func validTok(mn, mx int) string {
+	if ipfscluster.VerifIsReplicationFactorValid(mn, mx) == nil {
+		return "ok"
+	}
+	return "err"
+}
+
 func main() {
 	a := common.ParseArgs()
 	if a.Extra["stdin"] != "" {
@@ -249,6 +256,12 @@ func main() {
 		sc := bufio.NewScanner(os.Stdin)
 		sc.Buffer(make([]byte, 1<<20), 1<<24)
 		for sc.Scan() {
+			if f := strings.Fields(sc.Text()); len(f) >= 4 && f[0] == "C03" && f[1] == "valid" {
+				mn, _ := strconv.Atoi(f[2])
+				mx, _ := strconv.Atoi(f[3])
+				out.Line("C03 valid %d %d => %s", mn, mx, validTok(mn, mx))
+				continue
+			}
 			if c, ok := parse(sc.Text()); ok {
 				out.Line("%s => %s", c.input(), run(c))
 			}
@@ -265,6 +278,14 @@ func main() {
 	root := common.NewRng(common.Seed())
 	out := common.NewOut()
 	defer out.Flush()
+	if a.Only < 0 {
+		// tie of the Lean `factorsValid` to isReplicationFactorValid: exhaustive over a small square
+		for mn := -4; mn <= 7; mn++ {
+			for mx := -4; mx <= 7; mx++ {
+				out.Line("C03 valid %d %d => %s", mn, mx, validTok(mn, mx))
+			}
+		}
+	}
 	for k := 0; k < total; k++ {
 		if a.Only >= 0 && k != a.Only {
 			continue
